@@ -320,89 +320,101 @@ func (w *world) redownloadScenario() error {
 	return nil
 }
 
-// recoveryMoveScenario: an APPEND the connector refuses lands in the recovery mailbox; the client MOVEs it out into a
-// normal mailbox (the connector accepts it now); the session ends; close + reopen, kill + restart. What the client sees
-// must be the moved message with its exact bytes, and after each restart nothing marked for deletion and no cache file
-// without a row may remain (the old copy is purged, the new one is not marked).
+// recoveryMoveScenario: two APPENDs the connector refuses land in the recovery mailbox; the client COPYs the first and
+// MOVEs the second into a normal mailbox (the connector accepts them now, but does NOT journal them: after a restart it
+// cannot deliver them again, so only the cache files written by the import can serve them); the session ends. The
+// recovered source of the COPY must keep its exact bytes; the caller's checkpoint then closes / reopens / kills /
+// restarts and compares every message's bytes.
 func (w *world) recoveryMoveScenario() error {
 	res := w.ctx.Res
 	pfx := "RM_"
-	canon := "APPEND refused by the connector (message kept in the recovery mailbox); MOVE it out into A; LOGOUT; close; reopen"
+	canon := "2 APPENDs refused by the connector (kept in the recovery mailbox); COPY the first and MOVE the second into A; LOGOUT"
 	w.ctx.Current(canon, nil)
 	d, err := prepAB(w, pfx, 1, false)
 	if err != nil {
 		closeAll(d)
 		return err
 	}
-	if _, err := w.p.call(req{Op: "failnext", Name: "CreateMessage"}); err != nil {
-		closeAll(d)
-		return err
-	}
-	if r, err := d.c.Append(pfx+"A", "", literalOf(pfx+"rec")); err != nil || r.Status != "NO" {
-		closeAll(d)
-		return fmt.Errorf("APPEND expected NO: %v %s %s", err, r.Status, r.Text)
-	}
-	if err := cmds(d.c, "SELECT "+imapcQuote(recoveryName)); err != nil {
-		closeAll(d)
-		return err
-	}
-	// find the message of this scenario among the recovered ones
-	r, err := okCmd(d.c, "UID FETCH 1:* (UID BODY.PEEK[HEADER.FIELDS (X-Marker)])")
-	if err != nil {
-		closeAll(d)
-		return err
-	}
-	uid := 0
-	for _, e := range imapcEvs(r) {
-		if e.Kind == "FETCH" && len(e.Lits) > 0 && strings.Contains(string(e.Lits[len(e.Lits)-1]), pfx+"rec") {
-			uid = e.UID
-		}
-	}
-	if uid == 0 {
-		closeAll(d)
-		return fmt.Errorf("recovered message not found")
-	}
-	if err := cmds(d.c, fmt.Sprintf("UID MOVE %d %s", uid, imapcQuote(pfx+"A"))); err != nil {
-		closeAll(d)
-		return err
-	}
-	d.c.Cmd("LOGOUT")
-	closeAll(d)
-	w.settle(true)
-	want := fmt.Sprintf("%sA{v# n3 strue: 1=%sm1[] 2=%srec[]} %sB{v# n1 strue:}", pfx, pfx, pfx, pfx)
-	check := func(when string, restarted bool) error {
-		v, bad, err := viewOf(w.p, pfx)
-		if err != nil {
+	defer closeAll(d)
+	for _, mkr := range []string{"rec1", "rec2"} {
+		if _, err := w.p.call(req{Op: "failnext", Name: "CreateMessage"}); err != nil {
 			return err
 		}
-		res.Evaluations++
-		if maskUIDV(v) != want {
-			res.Fail("moved-recovered-message-wrong | "+canon+" | "+when, fmt.Sprintf("view: %s | expected: %s", maskUIDV(v), want), nil)
+		if r, err := d.c.Append(pfx+"A", "", literalOf(pfx+mkr)); err != nil || r.Status != "NO" {
+			return fmt.Errorf("APPEND expected NO: %v %s %s", err, r.Status, r.Text)
 		}
-		if len(bad) > 0 {
-			res.Fail("listed-message-not-fetchable | "+canon+" | "+when, strings.Join(bad, "; "), nil)
+	}
+	if err := cmds(d.c, "SELECT "+imapcQuote(recoveryName)); err != nil {
+		return err
+	}
+	// the messages of this scenario among the recovered ones, with their exact bytes
+	find := func() (map[string]int, map[string]string, error) {
+		r, err := okCmd(d.c, "UID FETCH 1:* (UID BODY.PEEK[])")
+		if err != nil {
+			return nil, nil, err
 		}
-		if restarted {
-			if lo, e := w.leftovers(); e == nil && lo != "" {
-				res.Fail("leftovers-after-restart | "+canon+" | "+when, lo, nil)
+		uids, shas := map[string]int{}, map[string]string{}
+		for _, e := range imapcEvs(r) {
+			if e.Kind != "FETCH" || len(e.Lits) == 0 {
+				continue
+			}
+			lit := e.Lits[len(e.Lits)-1]
+			if x := reMarker.FindSubmatch(lit); x != nil && strings.HasPrefix(string(x[1]), pfx) {
+				uids[string(x[1])] = e.UID
+				shas[string(x[1])] = litSHAFull(lit)
 			}
 		}
-		return nil
+		return uids, shas, nil
 	}
+	uids, shas, err := find()
+	if err != nil {
+		return err
+	}
+	if uids[pfx+"rec1"] == 0 || uids[pfx+"rec2"] == 0 {
+		return fmt.Errorf("recovered messages not found: %v", uids)
+	}
+	if _, err := w.p.call(req{Op: "journal", Mode: "off"}); err != nil {
+		return err
+	}
+	w.p.call(req{Op: "calls"})
+	if err := cmds(d.c, fmt.Sprintf("UID COPY %d %s", uids[pfx+"rec1"], imapcQuote(pfx+"A")),
+		fmt.Sprintf("UID MOVE %d %s", uids[pfx+"rec2"], imapcQuote(pfx+"A"))); err != nil {
+		return err
+	}
+	if cr, err := w.p.call(req{Op: "calls"}); err == nil {
+		for _, c := range cr.Calls {
+			if c.Op == "CreateMessage" && len(c.Args) == 2 {
+				w.noRedeliver[c.Args[1]] = true
+			}
+		}
+	}
+	if _, err := w.p.call(req{Op: "journal", Mode: "on"}); err != nil {
+		return err
+	}
+	res.Evaluations++
 	res.Nontrivial(canon)
-	if err := check("before the restart", false); err != nil {
+	uids2, shas2, err := find()
+	if err != nil {
 		return err
 	}
-	w.cleanQuit("recovery move")
-	if err := w.restart(""); err != nil {
+	if uids2[pfx+"rec1"] != uids[pfx+"rec1"] || shas2[pfx+"rec1"] != shas[pfx+"rec1"] {
+		res.Fail("recovered-source-changed-by-copy | "+canon, fmt.Sprintf("the recovered message that was COPIED out: uid %d bytes %s before, uid %d bytes %s after", uids[pfx+"rec1"], shas[pfx+"rec1"], uids2[pfx+"rec1"], shas2[pfx+"rec1"]), nil)
+	}
+	if _, still := uids2[pfx+"rec2"]; still {
+		res.Fail("moved-recovered-message-still-there | "+canon, "the recovered message that was MOVED out is still in the recovery mailbox", nil)
+	}
+	d.c.Cmd("LOGOUT")
+	w.settle(true)
+	want := fmt.Sprintf("%sA{v# n4 strue: 1=%sm1[] 2=%srec1[] 3=%srec2[]} %sB{v# n1 strue:} %s{%srec1[]}", pfx, pfx, pfx, pfx, pfx, recoveryName, pfx)
+	v, bad, err := viewOf(w.p, pfx)
+	if err != nil {
 		return err
 	}
-	if err := check("after close + reopen", true); err != nil {
-		return err
+	if !sameEntries(maskUIDV(v), want) {
+		res.Fail("copy-move-out-of-recovery-wrong | "+canon, fmt.Sprintf("view: %s | expected: %s", maskUIDV(v), want), nil)
 	}
-	w.p.kill()
-	if err := w.restart(""); err != nil {
-		return err
+	if len(bad) > 0 {
+		res.Fail("listed-message-not-fetchable | "+canon, strings.Join(bad, "; "), nil)
 	}
-	return check("after kill + restart", true)
+	return nil
 }
